@@ -23,7 +23,7 @@ RULE = ("cases are (document spec, probe time) pairs; documents enumerated compl
         "probe times = closure of offset sums + midpoints + outside; a document is non-trivial when its reference "
         "snapshots over the probe times take >= 2 distinct values and one is non-empty; distinct by document key")
 BOUNDS = {
-  "quick": "F-time: chain region?/body/div/p/span, begin in {-,1,3/2} x end in {-,1,2,7/2} on the seed-selected pair of "
+  "quick": "F-time: chain region?/body/div/p/span, begin in {-,1,3/2} x end in {-,0,1,2,7/2} on the seed-selected pair of "
            "levels and {-,1}x{-,2} on the others, with and without region; F-tree: all untimed trees <= 6 nodes; "
            "F-region: all region assignments {-,r1,r2} on all trees <= 5 nodes with 0/2 declared regions (timed or not); "
            "F-display: display {-,auto,none} on 5 levels x initial x one animated level; F-ruby; F-cross",
@@ -207,7 +207,7 @@ def fam_display():
 
 def fam_display_anim2():
   """two animation steps on one element, overlapping or not, element itself offset"""
-  steps = [(None, F(2)), (F(1), F(3)), (F(2), None), (F(1), F(2))]
+  steps = [(None, F(2)), (F(1), F(3)), (F(2), None), (F(1), F(2)), (None, F(0))]
   prod = Product([["p", "span", "div", "region"], [None, F(1)], steps, steps, ["none", "auto"], ["none", "auto"], [None, "none"]])
 
   def dec(i):
